@@ -20,7 +20,7 @@ CHECKS = {
              "(1e-9) and running-sum times, with only the documented admissible differences. Building blocks (fermi, beta*, "
              "nucltransK*, PbAtShell, pair, plog69) are compared function by function on random parameters. "
              "Decides the property for the tapes driven; reports distinct reference branch signatures reached."
-             "The steering candidates include each threshold itself and its floating-point neighbours (<= versus <), and a second search pass guided by (branch, number of deviates) refines every accept/reject boundary of the rejection samplers; a documented difference (the revised Y90 pair spectrum) must be present.",
+             " The steering candidates include each threshold itself and its floating-point neighbours (<= versus <), and a second search pass guided by (branch, number of deviates) refines every accept/reject boundary of the rejection samplers; a documented difference (the revised Y90 pair spectrum) must be present.",
         note="CERNLIB kernels absent from the repository (gauss, dgmlt, divdif, cgamma, ranlux) are shared by both sides; "
              "8-digit literals of pi/2pi in the reference are widened to binary64; reference locals are zero-initialised "
              "(-finit-local-zero) because Pa234m/Pb211 read an uninitialised level half-life; while the recorded fermi finding "
@@ -38,7 +38,7 @@ CHECKS = {
              "daughter's de-excitation cascade) compared particle by particle (primary leptons/"
              "X-rays, de-excitation cascade, follow-up alpha chains), and the porcelain generator must reproduce the plumbing bit "
              "for bit. Quick samples 25% of the quadrature-heavy modes, thorough runs all of them."
-             "Deep steering as in C01 (exact thresholds, deviate-count pass); the recorded root cause of the reference's in-place 50 eV clamp is confirmed by a replay whenever a counter in the shim saw the clamp act; the three start modes of genbbsub are compared in C05.",
+             " Deep steering as in C01 (exact thresholds, deviate-count pass); the recorded root cause of the reference's in-place 50 eV clamp is confirmed by a replay whenever a counter in the shim saw the clamp act; the three start modes of genbbsub are compared in C05.",
         note="Same trusted base as C01 (shared CERNLIB kernels, pi widening, zero-initialised reference locals, port fermi linked "
              "into the reference while the C01 fermi finding stands). Mode 20 with level != 0 is left to C06 (the reference "
              "silently rewrites the level).",
@@ -67,7 +67,7 @@ CHECKS = {
              "the end-point; every event passes the well-formedness monitor and the draw counter bounds the work per shot (hard cap 2e6, "
              "work bound 20000; reported max and 99.9 percentile). The reach of the workload inside the library (gcov build: lines, branch "
              "outcomes, functions never called) is measured and stored in the evidence."
-             "The arguments of every executed nuclear-transition call (decay0_nucltransK/KL/KLM/KLM_Pb, interposed through the PLT) are checked (conversion only above the shell's binding energy, pairs only above 1.022 MeV); at most one alpha per background event; mode-10 windows in the tail of the positron spectrum are a recorded finding (unbounded work), witnessed in every run.",
+             " The arguments of every executed nuclear-transition call (decay0_nucltransK/KL/KLM/KLM_Pb, interposed through the PLT) are checked (conversion only above the shell's binding energy, pairs only above 1.022 MeV); at most one alpha per background event; mode-10 windows in the tail of the positron spectrum are a recorded finding (unbounded work), witnessed in every run.",
         note="Bounded work is decided in deviates, not seconds; on mode 10 (one positron rejected under the maximum of the whole spectrum, as "
              "in the reference) a window holding < 1/300 of the spectrum is reported but not judged.",
         technique="runtime assertion monitor on every generated event + logical-clock (draw count) bound, steered inputs",
@@ -82,7 +82,7 @@ CHECKS = {
              "bullets, .lis files read through the library's own accessors, and the set of names decay0_generator accepts over a "
              "candidate universe (README + .lis + reference names + every exported scheme symbol) must be equal; mode labels must "
              "round-trip and match the README table."
-             "Accepted means 'initialises'; names with leading junk and published names cut short are probed; the three start modes of genbbsub agree on every published name; exactly one alpha in Bi212+Po212 / Bi214+Po214 events.",
+             " Accepted means 'initialises'; names with leading junk and published names cut short are probed; the three start modes of genbbsub agree on every published name; exactly one alpha in Bi212+Po212 / Bi214+Po214 events.",
         note="The name -> scheme table is derived from README annotations and exported headers, not from genbbsub.cc; daughters "
              "follow unless the parent emitted an alpha; daughter nucleus of a double-beta isotope from (Z, A).",
         technique="runtime differential monitor (dispatcher vs direct call, bit-identity) + set-equality monitor over enumerated catalogues",
@@ -96,7 +96,7 @@ CHECKS = {
              "(tables parsed from the reference source, synthetic gA datasets); accepted cells shoot events through the C04 monitor, rejected "
              "cells must not shoot and must stay un-initialised. Thorough initialises every cell (exhaustive); quick samples 5% of the accepted "
              "quadrature-heavy cells."
-             "The same settings in a permuted order of setter calls (also after a detour through the other category), negative lower window bounds, requests without a level, and a scripted history with a failed gA table load get the same verdict as a new object.",
+             " The same settings in a permuted order of setter calls (also after a detour through the other category), negative lower window bounds, requests without a level, and a scripted history with a failed gA table load get the same verdict as a new object.",
         note="Agreement of the model with the Fortran reference's ier (modes 1..20, no window) is established by C02 on the same cells; "
              "tabulated levels whose spin is neither 0+ nor 2+ (3 levels) get no verdict.",
         technique="runtime monitor against an executable reference model over an enumerated configuration grid",
@@ -110,7 +110,7 @@ CHECKS = {
              "event after each of ten kinds of history: prior shots (1/7/1000), reused or pre-filled (0..150 junk particles) or moved-from "
              "event objects, forced capacities, foreign instances created/initialised (also failing, also gA)/shot/reset/destroyed in between, "
              "reset + identical re-configuration, another initialisation deviate source, live twin instances."
-             "Further histories: an earlier life of the instance as another configuration (incl. the 16 gA tables), a user operation appending a copy of the event's own first particle to a full list; per-configuration event streams alone in a process versus in company of all other configurations; every pool item as the first thing a forked process does versus later in the configuration's sequence; first-use statics compared across processes with different orders.",
+             " Further histories: an earlier life of the instance as another configuration (incl. the 16 gA tables), a user operation appending a copy of the event's own first particle to a full list; per-configuration event streams alone in a process versus in company of all other configurations; every pool item as the first thing a forked process does versus later in the configuration's sequence; first-use statics compared across processes with different orders.",
         note="Bit-identity between runs of the same binary; histories are short programs over the public API composed from VERIF_SEED.",
         technique="runtime history monitor: replayed deviate tape, canonical-run oracle, bitwise comparison",
         design="DESIGN.md section 2, C07",
@@ -122,7 +122,7 @@ CHECKS = {
              "reaching the end of the 1-keV tables, event-reuse histories, and - once built - post-generation operations and the gA sampler) "
              "run in the ASan+UBSan build with libstdc++ assertions and vector annotations; reports are fatal and keyed kind|frame0|frame1; "
              "a canary self-test proves the runtime is active before anything is believed."
-             "gen_monitor also checks the capacity invariant of the keV-binned tables (int(e0*1000) <= SPSIZE) and that the parameters fixed by initialize() read the same after the shots (intra-object overruns are invisible to the sanitizers); the C05 dispatch workload (all start modes) and the echo-operation history run under ASan; a memcheck pass reads for uninitialised values.",
+             " gen_monitor also checks the capacity invariant of the keV-binned tables (int(e0*1000) <= SPSIZE) and that the parameters fixed by initialize() read the same after the shots (intra-object overruns are invisible to the sanitizers); the C05 dispatch workload (all start modes) and the echo-operation history run under ASan; a memcheck pass reads for uninitialised values.",
         note="Red-zone tools miss intra-object overflows and recycled memory; libgsl/libstdc++ uninstrumented; held on the executions driven.",
         technique="compiler sanitizers (AddressSanitizer + UndefinedBehaviorSanitizer + _GLIBCXX_ASSERTIONS) under steered workloads",
         design="DESIGN.md section 2, C08",
@@ -135,7 +135,7 @@ CHECKS = {
              "is executed on the real decay0_generator by replaying the shortest sequence that reaches the state, and after every call the "
              "implementation is compared with the model: throws <=> model, all getters, reset == freshly constructed object, failed initialize => "
              "object still initialisable. The first hit in BFS order is a minimal failing sequence. Repeated in the ASan/UBSan build."
-             "An invalid-configuration grid (windows on the ten modes without window support at 0+ and 2+ levels, quadruple-beta to excited levels, names with leading junk) and the debug switch as one more getter (every fifth trace).",
+             " An invalid-configuration grid (windows on the ten modes without window support at 0+ and 2+ levels, quadruple-beta to excited levels, names with leading junk) and the debug switch as one more getter (every fifth trace).",
         note="Bounded depth and a small alphabet of cheap configurations; the general accept/reject rules are C06's; every trace is validated "
              "against the implementation (no abstraction gap beyond the alphabet).",
         technique="runtime conformance monitor: executable reference model + exhaustive bounded BFS of API call sequences replayed on the real object",
@@ -149,7 +149,7 @@ CHECKS = {
              "n0 reproduces generator+operation bit for bit), rigid proper rotation and cone / rectangular-window membership (both half-angles) in "
              "target mode, membership and untouched rest in selection mode, the nothing-selected behaviour, get_last_target_index, and equality "
              "of the degree-based and radian-based entry points; degenerate null half-angles must be refused or honoured, never spin."
-             "Every third case registers 2-3 operations in one generator (== the stand-alone operations in registration order); a long-lived configuration record reset() and refilled.",
+             " Every third case registers 2-3 operations in one generator (== the stand-alone operations in registration order); a long-lived configuration record reset() and refilled.",
         note="Cone frame defined by the axis vector; rectangular windows drawn with analytic acceptance >= 4e-3 so the draw cap cannot fire on correct code.",
         technique="runtime before/after invariant monitor on hooked operation calls, replayed deviate tape",
         design="DESIGN.md section 2, C10",
@@ -162,7 +162,7 @@ CHECKS = {
              "5 (quick) / 8 (thorough) events, every partition into up to 4 files incl. empty and whitespace-only ones, every (start, max), every "
              "pattern of extra has_next_event() calls - checked against a list-slice model: delivered sequence, announce => load succeeds, empty "
              "window => none announced, idempotence, loaded counter. Repeated in the ASan/UBSan build."
-             "Maximal window sizes (INT_MAX), free-form labels up to ~200 characters, all six species, files ending without final newline, the caller's stream left in fixed/scientific/hexadecimal state, abandoned sessions on a long-lived reader.",
+             " Maximal window sizes (INT_MAX), free-form labels up to ~200 characters, all six species, files ending without final newline, the caller's stream left in fixed/scientific/hexadecimal state, abandoned sessions on a long-lived reader.",
         note="Small-scope hypothesis for the window part; labels from the published names.",
         technique="runtime reference-model monitor over recorded reader sessions (list-slice model), exhaustive small scope",
         design="DESIGN.md section 2, C11",
@@ -179,7 +179,7 @@ CHECKS = {
              "of two threads - 70 schedules for one call each, 12870 for two - with trace invariants I1 (handler off while integrating), I2 (handler "
              "restored at quiescence), I3 (process default handler never invoked, with an integrand on which QNG really fails). (3) Every thread's "
              "event stream equals the stream of the same configuration run alone."
-             "Every stress configuration is also run alone in a process of its own and every stream of the shared process must equal it; the ThreadSanitizer sweep has a pass in which all threads enter the same configuration together (a barrier: happens-before edges between visits at different times hide races), separate processes for backgrounds and double-beta cells, 16 tapes per steered branch.",
+             " Every stress configuration is also run alone in a process of its own and every stream of the shared process must equal it; the ThreadSanitizer sweep has a pass in which all threads enter the same configuration together (a barrier: happens-before edges between visits at different times hide races), separate processes for backgrounds and double-beta cells, 16 tapes per steered branch.",
         note="libgsl uninstrumented (shadow variable models its global); interleavings distinguished at hook points and at TSan's happens-before "
              "granularity; blocked schedules (lock) are infeasible, not violations.",
         technique="ThreadSanitizer + deterministic schedule enumeration at hooked yield points with trace-invariant monitors + sequential-equivalence oracle",
@@ -194,7 +194,7 @@ CHECKS = {
              "present; refused ones: no record, no marker, a diagnostic; a share of them also under ASan/UBSan/libstdc++ assertions. Fault "
              "enumeration: for selected command lines EVERY write() of the fault-free run is once a SIGKILL point and once an ENOSPC and EIO error "
              "(strace inject, firing confirmed in the trace), and '@status=0 => event file complete' is checked after each."
-             "Every published nuclide of both list files once per run; NaN MDL angles are refusal cases; the oracle program wraps the engine in its own i_random.",
+             " Every published nuclide of both list files once per run; NaN MDL angles are refusal cases; the oracle program wraps the engine in its own i_random.",
         note="On-disk state only changes at write(), so syscall granularity is exhaustive for the two files of a command line; the command-line "
              "space itself is sampled.",
         technique="black-box runtime monitor of the CLI with an API-level reference renderer + syscall fault injection (strace) at every write",
@@ -209,7 +209,7 @@ CHECKS = {
              "monotonicity, range and the final 1, samples (u1,u2) on cell boundaries (value, nextafter down/up), tails and random pairs and checks "
              "non-negativity, cell membership, e1+e2 <= dataset maximum, monotonicity in each deviate, and that shoot() on a tape equals the replayed "
              "shoot_e1_e2 + shoot_cos_theta; the rejection method is bound to its range and maximum."
-             "Grids ending exactly at the maximum energy sum; a subset of the datasets is read again under a decimal-comma C numeric locale (compiled with localedef) and must decode and sample identically.",
+             " Grids ending exactly at the maximum energy sum; a subset of the datasets is read again under a decimal-comma C numeric locale (compiled with localedef) and must decode and sample identically.",
         note="Datasets are synthetic (the real 1.7 GB dataset is not available offline); the encoder script of /repo is trusted as the format's definition.",
         technique="runtime oracle monitor: encoder-side truth vs decoder, cell-membership and monotonicity assertions on sampled deviate pairs",
         design="DESIGN.md section 2, C14",
@@ -222,7 +222,7 @@ CHECKS = {
              "samples, the Test table, synthetic gA files and a structure-aware mutation pass; after every successful load the monitor applies the "
              "loader's own predicate. Artifacts are re-run alone for triage and keyed target|kind|frames. Catalogue list files: one process per mutated "
              "resource directory (ASan build), outcome must be a clean error or a catalogue satisfying its predicate."
-             "Accepted tables are walked again the way the loader walks them (c.d.f. rows: non-decreasing, in [0,1], ending at 1; p.d.f.: no probability beyond the maximum energy sum); a refused table must leave nothing behind (then a valid table on the same object == new object); catalogue runner uses what it loaded (accessors for every enumeration value, also compiled in libstdc++ debug mode); legacy-mode field must be an enumerator.",
+             " Accepted tables are walked again the way the loader walks them (c.d.f. rows: non-decreasing, in [0,1], ending at 1; p.d.f.: no probability beyond the maximum energy sum); a refused table must leave nothing behind (then a valid table on the same object == new object); catalogue runner uses what it loaded (accessors for every enumeration value, also compiled in libstdc++ debug mode); legacy-mode field must be an enumerator.",
         note="Bounded by -runs (2e5 per target quick, 2e7 thorough), not by time; timeouts count as hangs only if they reproduce stand-alone.",
         technique="coverage-guided fuzzing under AddressSanitizer/UndefinedBehaviorSanitizer with predicate monitors",
         design="DESIGN.md section 2, C15",
@@ -233,7 +233,7 @@ CHECKS = {
         text="Each kernel is called on thousands of generated arguments (all monomials x panel counts x intervals, "
              "function families x tolerances, random tables, angles, the (Z,E) grid) and compared with an analytic "
              "oracle written independently in the harness; plain and ASan/UBSan builds. Held-on-observed, not a proof."
-             "Golden-section requests down to 1e-7 of the interval (below: recorded finding, witnessed); a value the quadrature wrapper returns without its error message must be within the relaxed tolerance; iterated integrals through nested panel routines; rotation on vectors of scale 1e-30..1e30.",
+             " Golden-section requests down to 1e-7 of the interval (below: recorded finding, witnessed); a value the quadrature wrapper returns without its error message must be within the relaxed tolerance; iterated integrals through nested panel routines; rotation on vectors of scale 1e-30..1e30.",
         note="Trusts libm long double on the oracle side and the closed form of the Fermi function as documented; "
              "quadrature oracle only binds when GSL's QNG itself reports convergence (otherwise the wrapper promises nothing).",
         technique="runtime oracle monitors over generated inputs (analytic reference values), run under ASan+UBSan",
@@ -244,7 +244,9 @@ CHECKS = {
 CHECKS["C17"] = dict(
     script="checks/c17.py",
     level="exploration",
-    text="The real primary_generator_action.cc, unique_point_vertex_generator.cc and vertex_generator_interface.cc are compiled unmodified "
+    text="Also: the path the UI commands take (DestroyConfiguration, working configuration back to defaults, fields filled one by one), stray double-beta "
+         "fields on background requests, and two actions on two threads with a deterministic interleaving (each worker's primaries are its own decay). "
+         "The real primary_generator_action.cc, unique_point_vertex_generator.cc and vertex_generator_interface.cc are compiled unmodified "
          "against a recording stand-in for the Geant4 classes they use (particle gun with the real momentum/energy semantics, CLHEP units with "
          "their real values so that a dropped factor is 1e9). Transfer monitor: thousands of events of random valid configurations compared "
          "with the library API on the same engine and seed - one primary per particle, in order, species, momentum vector in MeV, time in "
